@@ -2,6 +2,9 @@ package checks
 
 import (
 	"context"
+	"crypto"
+	_ "crypto/sha256"
+	_ "crypto/sha512"
 	"encoding/binary"
 	"fmt"
 	"math"
@@ -202,6 +205,37 @@ func runC11(c *core.Ctx) {
 			}
 		}
 	}
+	// large data: sizes at and around multiples of 1 MiB and 64 KiB (a digest computed in chunks must cover every byte)
+	for _, sz := range []int{1 << 16, 1<<16 + 1, 3 << 16, 1 << 20, 1<<20 + 1, 2 << 20, 2<<20 - 1, 3 << 20, 1<<24 + 5} {
+		data := make([]byte, sz)
+		for i := 0; i < len(data); i += 4093 {
+			data[i] = byte(i>>12) + 1
+		}
+		data[len(data)-1] = 0x77
+		es = append(es, e2e{data, 9.0 / float64(sz+8), 2}) // two trailing zeros
+	}
+	// a Worker made while the exported pow.Hash was another function (a caller that switches the digest and back): the
+	// Worker is used with the default again and must mine for the block Score evaluates
+	{
+		pow.Hash = crypto.SHA224
+		w224 := pow.New(1)
+		pow.Hash = crypto.SHA512_256
+		w512 := pow.New(2)
+		pow.Hash = crypto.BLAKE2b_256
+		for name, w := range map[string]*pow.Worker{"SHA-224": w224, "SHA-512/256": w512} {
+			data := []byte("made under " + name)
+			target := 81.0/float64(len(data)+8) - 1e-9
+			var nonce uint64
+			var err error
+			p := core.Catch(func() { nonce, err = w.Mine(context.Background(), data, target) })
+			c.Eval(1)
+			msg := append(append([]byte{}, data...), make([]byte, 8)...)
+			binary.LittleEndian.PutUint64(msg[len(data):], nonce)
+			if p != nil || err != nil || refScoreV1(msg) < target {
+				c.Violate("C11/environment/worker-made-under-other-hash", fmt.Sprintf("a Worker created while pow.Hash was %s, used after pow.Hash is BLAKE2b-256 again: Mine = %d, %v (panic %v), score %v, target %v", name, nonce, err, p, refScoreV1(msg), target), name, "", nil)
+			}
+		}
+	}
 	core.Par(len(es), func(i int) {
 		e := es[i]
 		var nonce uint64
@@ -209,7 +243,7 @@ func runC11(c *core.Ctx) {
 		p := core.Catch(func() { nonce, err = pow.New(e.workers).Mine(context.Background(), e.data, e.target) })
 		c.Eval(1)
 		nontriv.Add(1)
-		cas := map[string]interface{}{"data": fmt.Sprintf("%x", e.data), "target": e.target, "workers": e.workers}
+		cas := map[string]interface{}{"data": fmt.Sprintf("%.64x", e.data), "data_len": len(e.data), "target": e.target, "workers": e.workers}
 		if p != nil || err != nil {
 			c.Violate("C11/e2e/error", fmt.Sprintf("Mine: %v %v", p, err), cas, "", nil)
 			return
